@@ -12,12 +12,14 @@ let s_draw d = s_purpose d.d_purpose ^ ":" ^ hexnum_of_z d.d_size ^ ":" ^ string
 let join f l = if l = [] then "-" else String.concat "," (List.map f l)
 
 let () = run_table [
-  (* trace start ops -> per op  "draws|exposed cells|exposed supplied octets"  joined by ';', then the next free cell *)
+  (* trace start ops -> per op  "draws|exposed cells|exposed supplied octets|number of outputs (0 = the operation raised)"  joined by ';',
+     then the next free cell *)
   "trace", (function [start; ops] ->
       let (res, n) = run (List.map parse_op (split ';' ops)) (nat_of_int (int_of_string start)) in
       String.concat ";" (List.map (fun (outs, t) ->
           join s_draw t ^ "|" ^ join (fun c -> string_of_int (int_of_nat c)) (List.concat_map exposed outs)
-          ^ "|" ^ join hex_of_bytes (List.concat_map exposed_given outs)) res)
+          ^ "|" ^ join hex_of_bytes (List.concat_map exposed_given outs)
+          ^ "|" ^ string_of_int (List.length outs)) res)
       ^ ";" ^ string_of_int (int_of_nat n)
     | _ -> failwith "args");
   "sizes", (function [c] -> hexnum_of_z (key_octets (z_of_hexnum c)) ^ " " ^ hexnum_of_z (blk_octets (z_of_hexnum c)) | _ -> failwith "args");
